@@ -539,6 +539,10 @@ encodeResponse:
     }
     if (ssl->err != SSL_ALERT_NONE)
     {
+        /* This is always a fatal alert caused by an error in parsing or
+           validating what the peer sent: flag the session as failed so
+           that it cannot be used any further (as in TLS 1.2 and below). */
+        ssl->flags |= SSL_FLAGS_ERROR;
         *alertDescription = (unsigned char)ssl->err;
         *alertLevel = SSL_ALERT_LEVEL_FATAL;
         rc = tls13EncodeAlert(ssl, ssl->err, &tmp, requiredLen);
@@ -548,6 +552,14 @@ encodeResponse:
         /* Handshake response */
         *alertDescription = SSL_ALERT_NONE;
         rc = sslEncodeResponse(ssl, &tmp, requiredLen);
+        if (rc == MATRIXSSL_SUCCESS && ssl->err != SSL_ALERT_NONE)
+        {
+            /* Creating the response failed and a fatal alert was
+               written instead. */
+            ssl->flags |= SSL_FLAGS_ERROR;
+            *alertDescription = (unsigned char)ssl->err;
+            *alertLevel = SSL_ALERT_LEVEL_FATAL;
+        }
     }
     if (rc == SSL_FULL)
     {
